@@ -60,6 +60,37 @@ def scenario(hist, entry, rng, variant=0):
         else:
             B[...] = P[perm2]
         lifecycle.observe_all(hist, obj, entry, B, "RowPure", note=who + " buffer refilled in place")
+        if who == "fitted" and intruder(entry, obj, variant, rng):
+            lifecycle.observe_all(hist, obj, entry, P, "RowPure", note=who + " after a second estimator sharing its sub-estimators was trained")
+        # integer-valued rows handed over in an integer array (counts, pixel values): the same rows
+        if isinstance(P, numpy.ndarray) and P.dtype.kind == "f" and numpy.array_equal(P, numpy.round(P)):
+            lifecycle.observe_all(hist, obj, entry, P.astype(numpy.int64), "RowPure", note=who + " integer dtype batch")
+
+
+# classes that, by design, train the very object they were given (documented wrappers): sharing it IS sharing the model
+TRAINS_IN_PLACE = {"ClassifierAfterKMeans", "SkBaseTransformLearner", "SkBaseTransformStacking", "TransferTransformer"}
+
+
+def intruder(entry, a, variant, rng):
+    """The caller builds a second estimator around the SAME sub-estimator objects (same binner / base model instance) and
+    trains it on other data.  Estimators that train clones are not affected by it."""
+    import warnings
+    if entry.name.split("[")[0] in TRAINS_IN_PLACE:
+        return False
+    sub = {k: v for k, v in a.get_params(deep=False).items() if hasattr(v, "get_params")}
+    if not sub:
+        return False
+    other = entry.make(variant)
+    other.set_params(**sub)
+    X2, y2 = entry.data(rng)
+    with warnings.catch_warnings():
+        warnings.simplefilter("ignore")
+        try:
+            numpy.random.seed(rng.randint(0, 999))
+            other.fit(X2, y2) if y2 is not None else other.fit(X2)
+        except Exception:
+            return False
+    return True
 
 
 def run(ctx):
